@@ -32,6 +32,8 @@ func main() {
 	listRules := flag.Bool("list", false, "list rules and properties")
 	dump := flag.Bool("dump", false, "print every obligation")
 	config := flag.String("config", "", "restrict to one build config")
+	census := flag.String("census", "", "debug: comma-separated fields to print writers of")
+	dumpReg := flag.Bool("registry", false, "debug: print the extracted registry")
 	flag.Parse()
 	debug.SetGCPercent(200)
 
@@ -39,6 +41,24 @@ func main() {
 		for _, id := range sortedKeys(ruleRegistry) {
 			fmt.Printf("%-28s floor=%-3d %s\n", id, ruleRegistry[id].Floor, ruleRegistry[id].Doc)
 		}
+		return
+	}
+	if *dumpReg {
+		c, err := Load(*repo, buildConfigs["default"])
+		if err != nil {
+			fmt.Println(err)
+			os.Exit(1)
+		}
+		debugRegistry(c)
+		return
+	}
+	if *census != "" {
+		c, err := Load(*repo, buildConfigs["default"])
+		if err != nil {
+			fmt.Println(err)
+			os.Exit(1)
+		}
+		debugCensus(c, strings.Split(*census, ","))
 		return
 	}
 	if *replay != "" {
